@@ -39,7 +39,7 @@ function GetToken(input :string, model:{ValType :ValType, pos :number}) :number 
 	}
 	const k = c - 64;
 	model.ValType = new ValType();
-	model.ValType.s = "!"; model.ValType.t = "!"; model.ValType.n = -9999; model.ValType.m = -9999;
+	model.ValType.s = "!"; model.ValType.t = "!"; model.ValType.n = -9999; model.ValType.m = -9999; model.ValType.st = "!"; model.ValType.nm = -9999;
 	const sv = String.fromCharCode(97 + k % 26) + "@" + p;
 	const nv = (7*p + k + 1) % 10007;
 	switch (k) {
